@@ -176,7 +176,13 @@ def run(pid: str, tier: str, seed: int, selftest=False, replay=None) -> int:
         gens.append((f"witness:{pid}/{os.path.basename(p)}", (wj["text"], [tuple(a) for a in wj["alts"]], wj["w"], wj["info"])))
     for k in range(n):
         gens.append((f"gen:{seed}:{k}", gen_case(rng)))
-    for name, (text, alts, w, info) in gens:
+    prev_text = None
+    for gi, (name, (text, alts, w, info)) in enumerate(gens):
+        # every third copy is lowered in one pass run together with the previous one (as function @g); @f is judged
+        own = text
+        if name.startswith("gen:") and gi % 3 == 0:
+            text = repo.add_companion(text, prev_text)
+        prev_text = own
         try:
             m = repo.parse(text)
             m.verify()
